@@ -38,6 +38,13 @@ def run(prog, rep):
     rep.expect_min("C20.read", 3)
     from .purity import row as _stateless_row
     rep.part(_stateless_row, prog, rep, "C20", 3)
+    # design_conditions=True draws what calculate_design_conditions returns for the contour: its rows (C17's design part) are filed here too
+    from vstat.report import Relabel
+    from . import c17
+    rep.part(c17.design, prog, Relabel(rep, "C20.design", lambda r, inst: r in ("C17.swap", "C17.probe", "C17.result", "C17.default")))
+    rep.expect_min("C20.design", 9)
+    rep.explanation += (" C20.design: the rows of C17 for calculate_design_conditions - the helper whose result plot_2D_contour scatters works on the same "
+                        "closed polyline that is drawn (closed with its FIRST point, axes exchanged iff swap_axis).")
 
 def find_calls(fn, b, pred):
     out = []
